@@ -282,6 +282,21 @@ func (a *Analysis) lockDiscipline(rep *Report, g *guardedState, name string, fn 
 			sections++ // an unprotected access is its own "section"
 		}
 	}
+	// Q7: an operation names one entry: the key it looks up is the key it inserts or deletes (the same expression – two
+	// calls of the service's Algorithm() count as the same, C14 H0 has them constant). A check made under one spelling
+	// of the name and an insert under another lets two registrations of one name both succeed.
+	firstKey, firstKeyAt := "", ""
+	keyed := func(e *Event) {
+		if len(e.Args) == 0 || e.Args[0] == nil || (e.Mode != "lookup" && e.Mode != "update" && e.Mode != "delete" && e.Mode != "index") {
+			return
+		}
+		k := stableKey(stripCT(e.Args[0]).Pretty())
+		if firstKey == "" {
+			firstKey, firstKeyAt = k, a.P.Pos(e.Pos)
+			return
+		}
+		rep.Ob("Q7-one-key-per-operation", name+":"+e.Mode, k == firstKey, a.P.Pos(e.Pos), "the operation accesses the registry under "+k+" here and under "+firstKey+" at "+firstKeyAt+": what it checks is not what it changes")
+	}
 	var events []*Event
 	inLoop := map[*Event]bool{}
 	var flat func(evs []*Event, loop bool)
@@ -337,10 +352,12 @@ func (a *Analysis) lockDiscipline(rep *Report, g *guardedState, name string, fn 
 		case EvMapRead:
 			if base, ok := fieldBase(e.Recv, g.Struct, g.MapField); ok {
 				access(e, base, false, "read("+e.Mode+")")
+				keyed(e)
 			}
 		case EvMapWrite:
 			if base, ok := fieldBase(e.Recv, g.Struct, g.MapField); ok {
 				access(e, base, true, "write("+e.Mode+")")
+				keyed(e)
 			}
 		case EvStore:
 			if base, ok := fieldBase(e.Dst, g.Struct, g.MapField); ok && stripCT(e.Dst).Op == "field" {
@@ -778,6 +795,79 @@ func (a *Analysis) accessorResultReadOnly(acc *ssa.Function) bool {
 		}
 	}
 	return true
+}
+
+type capturedWrite struct {
+	in   ssa.Instruction
+	what string
+}
+
+// capturedWrites: the instructions of the function literal fn that write a variable it captured or memory reached
+// through one (an element of a captured slice, an entry of a captured map, a field of a captured record).
+func capturedWrites(fn *ssa.Function) []capturedWrite {
+	d := map[ssa.Value]string{}
+	for _, fv := range fn.FreeVars {
+		d[fv] = fv.Name()
+	}
+	for changed := true; changed; {
+		changed = false
+		set := func(v ssa.Value, n string) {
+			if _, ok := d[v]; !ok {
+				d[v] = n
+				changed = true
+			}
+		}
+		for _, b := range fn.Blocks {
+			for _, in := range b.Instrs {
+				switch in := in.(type) {
+				case *ssa.UnOp:
+					if n, ok := d[in.X]; ok && in.Op.String() == "*" && isRefType(in.Type()) {
+						set(in, n)
+					}
+				case *ssa.FieldAddr:
+					if n, ok := d[in.X]; ok {
+						set(in, n)
+					}
+				case *ssa.IndexAddr:
+					if n, ok := d[in.X]; ok {
+						set(in, n)
+					}
+				case *ssa.Slice:
+					if n, ok := d[in.X]; ok {
+						set(in, n)
+					}
+				case *ssa.Phi:
+					for _, e := range in.Edges {
+						if n, ok := d[e]; ok {
+							set(in, n)
+						}
+					}
+				}
+			}
+		}
+	}
+	var out []capturedWrite
+	for _, b := range fn.Blocks {
+		for _, in := range b.Instrs {
+			switch in := in.(type) {
+			case *ssa.Store:
+				if n, ok := d[in.Addr]; ok {
+					out = append(out, capturedWrite{in, "store to captured " + n})
+				}
+			case *ssa.MapUpdate:
+				if n, ok := d[in.Map]; ok {
+					out = append(out, capturedWrite{in, "map update of captured " + n})
+				}
+			case *ssa.Call:
+				if bi, ok := in.Call.Value.(*ssa.Builtin); ok && (bi.Name() == "delete" || bi.Name() == "clear" || bi.Name() == "copy") && len(in.Call.Args) > 0 {
+					if n, ok := d[in.Call.Args[0]]; ok {
+						out = append(out, capturedWrite{in, bi.Name() + " on captured " + n})
+					}
+				}
+			}
+		}
+	}
+	return out
 }
 
 func usesGlobal(in ssa.Instruction, g *ssa.Global) bool {
@@ -1275,6 +1365,18 @@ func (a *Analysis) CheckC20(rep *Report, tier string) {
 		}
 		nreach++
 		name := FuncName(fn)
+		// V6: a function literal made outside the codec calls (by start-up code, kept in a package-level variable or a
+		// table) and run inside them: what it captured lives as long as the program and is shared by every call – it
+		// may read it, not write it
+		maker := fn.Parent()
+		for maker != nil && maker.Parent() != nil {
+			maker = maker.Parent()
+		}
+		if fn.Parent() != nil && len(fn.FreeVars) > 0 && !reach[fn.Parent()] && maker != nil && !reach[maker] && startupOnly(maker) {
+			for _, w := range capturedWrites(fn) {
+				rep.Ob("V6-no-write-to-captured-state", name+":"+w.what, false, a.P.Pos(w.in.Pos()), fmt.Sprintf("%s: the function literal was made by %s, outside any codec call, so the variable is shared by every call that runs it", w.what, FuncName(fn.Parent())))
+			}
+		}
 		for _, w := range writes {
 			if w.fn == fn {
 				gname := shortPkg(w.g.Pkg.Pkg.Path()) + "." + w.g.Name()
